@@ -137,7 +137,16 @@ class ExprMixin:
     def e_Tuple(self, e, st):
         if any(isinstance(x, ast.Starred) for x in e.elts):
             raise Unsupported("starred in tuple")
-        return [(s, v if isinstance(v, Exc) else PyTuple(v)) for s, v in self.eval_list(e.elts, st)]
+        out = []
+        for s, v in self.eval_list(e.elts, st):
+            if isinstance(v, Exc):
+                out.append((s, v))
+            elif (len(v) == 3 and is_int(lift(v[0])) and is_str(lift(v[1]))
+                  and ((isinstance(v[2], PyConst) and v[2].name == "varargs") or (isinstance(v[2], PyTuple) and not v[2].items))):
+                out.append((s, PyKey(lift(v[0]))))        # memo cache key (mark, method name, args): only the mark varies
+            else:
+                out.append((s, PyTuple(v)))
+        return out
 
     def e_List(self, e, st):
         out = []
@@ -174,6 +183,10 @@ class ExprMixin:
         return [(st, PyStrSet(vals))]
 
     def e_Dict(self, e, st):
+        if not e.keys:
+            m = PyMap.empty()
+            m.nonempty = z3.BoolVal(False)
+            return [(st, m)]
         d = {}
         for k, v in zip(e.keys, e.values):
             val = self.eval1(v, st)
